@@ -173,9 +173,24 @@ func mutantCmd(args []string) int {
 	}()
 	var fired []string
 	seen := map[string]bool{}
+	// known findings also "fire" on the unchanged tree: they do not count
+	verifDir := "/verif"
+	if self, err := os.Executable(); err == nil {
+		verifDir = filepath.Dir(filepath.Dir(self))
+	}
+	known, _ := an.LoadKnown(filepath.Join(verifDir, "known_findings.json"))
 	for _, o := range c.Obls {
 		if o.Status == an.Violation || o.Status == an.Undecided {
 			k := o.Rule + " " + o.Key
+			isKnown := false
+			for _, kf := range known {
+				if kf.Status == "known" && kf.Property == prop && kf.Rule == o.Rule && kf.Key == o.Key && o.Status == an.Violation {
+					isKnown = true
+				}
+			}
+			if isKnown {
+				continue
+			}
 			if !seen[k] {
 				seen[k] = true
 				fired = append(fired, k+" ["+string(o.Status)+"]")
